@@ -13,8 +13,13 @@ Qed.
 Lemma short_false n d : sf_short n d = false -> (n <= length d)%nat.
 Proof. rewrite sf_short_spec. intros H. apply Nat.ltb_ge in H. exact H. Qed.
 
+Lemma p_u32_ok_r : forall d, (4 <= length d)%nat -> exists v, 0 <= v < 4294967296 /\ p_u32 d = Ok (v, skipn 4 d).
+Proof.
+  intros [|a [|b [|c [|e r]]]] H; cbn [length] in H; try lia. eexists; split; [|reflexivity].
+  unfold u32. apply Z.mod_pos_bound. lia.
+Qed.
 Lemma p_u32_ok : forall d, (4 <= length d)%nat -> exists v, p_u32 d = Ok (v, skipn 4 d).
-Proof. intros [|a [|b [|c [|e r]]]] H; cbn [length] in H; try lia. eexists; reflexivity. Qed.
+Proof. intros d H. destruct (p_u32_ok_r d H) as [v [_ Hv]]. exists v. exact Hv. Qed.
 
 Lemma sf_split_ok : forall n d, (n <= length d)%nat -> sf_split n d = Some (firstn n d, skipn n d).
 Proof.
@@ -122,6 +127,14 @@ Proof.
   intros He Hc Hf d Hd. unfold pbind, p_w. destruct (sf_short 4 d) eqn:E; [exact He|].
   apply short_false in E. destruct (p_u32_ok d E) as [v Hv]. rewrite Hv.
   specialize (Hf v (skipn 4 d)). rewrite skipn_length in Hf. specialize (Hf ltac:(lia)).
+  destruct (f v (skipn 4 d)) as [[b r]|e'|s]; auto. lia.
+Qed.
+Lemma good_pw_r {A} (k c : nat) e (f : Z -> P A) :
+  e <> 99 -> (c <= 4)%nat -> (forall v, 0 <= v < 4294967296 -> good (k - 4) 0 (f v)) -> good k c (pbind (p_w e) f).
+Proof.
+  intros He Hc Hf d Hd. unfold pbind, p_w. destruct (sf_short 4 d) eqn:E; [exact He|].
+  apply short_false in E. destruct (p_u32_ok_r d E) as [v [Hr Hv]]. rewrite Hv.
+  specialize (Hf v Hr (skipn 4 d)). rewrite skipn_length in Hf. specialize (Hf ltac:(lia)).
   destruct (f v (skipn 4 d)) as [[b r]|e'|s]; auto. lia.
 Qed.
 Lemma good_fixed_bind {A} (k c m : nat) sh (f : list sv -> P A) :
@@ -350,4 +363,167 @@ Proof.
   destruct ex.
   - eapply (good_bind0 0 0); [ | lia | intros ci; apply (T [])]. pw. pw. apply good_ret.
   - eapply (good_bind0 0 0); [ | lia | intros ci; apply (T [])]. pw. apply good_ret.
+Qed.
+
+(* ------------------------------------------------------------------ counter records *)
+Lemma words_err_good n e : e <> 99 -> good 0 0 (p_words_err n e).
+Proof.
+  intros He. induction n as [|n IH]; cbn [p_words_err]; [apply good_ret|].
+  apply good_pw; [exact He | lia |]. intros v. cbn [Nat.sub].
+  eapply (good_bind0 0 0); [exact IH | lia |]. intros l. apply good_ret.
+Qed.
+
+Lemma ethc_good : good 4 4 p_ethc.
+Proof.
+  unfold p_ethc. eapply (good_fix_bind _ 4); [apply (fixp_field FFmt) | lia | lia |]. intros a. cbn [Nat.sub].
+  eapply (good_bind0 0 0); [apply words_err_good; lia | lia |]. intros b. apply good_ret.
+Qed.
+
+Lemma portname_good : good 0 8 p_portname.
+Proof.
+  unfold p_portname. apply good_fixed_bind; [cbn; lia | cbn; lia |]. intros a. cbn [shsize fsize Nat.max Nat.add Nat.sub].
+  eapply good_weaken; [|apply Nat.le_0_l | apply Nat.le_refl].
+  apply good_pw_r; [lia | lia |]. intros n Hn d _. cbv zeta.
+  destruct ((n + 3) / 4 * 4 >? zlen d) eqn:C; [lia|].
+  set (np := if n mod 4 =? 0 then n else (n + (4 - n mod 4)) mod 4294967296).
+  apply (good_take np d (fun _ r => a ++ [SU np; SB (firstn (Z.to_nat n) d)])).
+  unfold np. destruct (n mod 4 =? 0) eqn:M; lia.
+Qed.
+
+Lemma counter_record_good ty : good 4 4 (p_counter_record ty).
+Proof.
+  unfold p_counter_record. destruct (counter_fixed ty) as [[m sh]|] eqn:E.
+  - apply counter_fixed_ok in E. destruct E as [E1 E2]. eapply good_weaken; [apply good_fixed; exact E1 | lia | lia].
+  - repeat match goal with |- context [if ?b then _ else _] => destruct b end.
+    + apply ethc_good.
+    + wk portname_good.
+    + eapply good_weaken; [apply (skip_err_good 53) | lia | lia]. lia.
+    + intros d _. cbn. lia.
+Qed.
+
+Lemma crecs_good : forall fuel cnt d, (length d < fuel)%nat ->
+  match p_crecs fuel cnt d with Ok (_, r) => (length r <= length d)%nat | Err e => e <> 99 | Panic _ => False end.
+Proof.
+  induction fuel as [|f IH]; intros cnt d Hf; [lia|].
+  cbn [p_crecs]. destruct (cnt <=? 0); [lia|].
+  destruct (sf_short 4 d) eqn:E; [lia|]. apply short_false in E.
+  destruct (p_u32_ok d E) as [tag Ht]. rewrite Ht.
+  pose proof (counter_record_good (tag mod 4096) d E) as Hp.
+  destruct (p_counter_record (tag mod 4096) d) as [[x r]|e|s]; auto.
+  specialize (IH (cnt - 1) r ltac:(lia)). destruct (p_crecs f (cnt - 1) r) as [[l r']|e|s]; auto. lia.
+Qed.
+
+Lemma counter_sample_good ex : good 0 4 (p_counter_sample ex).
+Proof.
+  unfold p_counter_sample. apply good_short; [lia|]. intros _.
+  assert (K : (20 <= Nat.max 0 (if ex then 24 else 20))%nat) by (destruct ex; cbn; lia).
+  assert (K2 : ex = true -> (24 <= Nat.max 0 (if ex then 24 else 20))%nat) by (intros ->; cbn; lia).
+  set (k := Nat.max 0 (if ex then 24 else 20)) in *.
+  eapply (good_fix_bind _ 4); [apply fixp_u32 | lia | lia |]; intros sdf.
+  eapply (good_fix_bind _ 4); [apply fixp_u32 | lia | lia |]; intros slen.
+  eapply (good_fix_bind _ 4); [apply fixp_u32 | lia | lia |]; intros seq.
+  assert (L : forall ci : Z * Z, good 4 0 (pbind p_u32 (fun rc => fun d =>
+    match p_crecs (S (length d)) rc d with
+    | Ok (recs, r) =>
+      Ok (SL [SU (sdf / 4096); SU (sdf mod 4096); SU slen; SU seq; SU (fst ci); SU (snd ci); SU rc; SL recs], r)
+    | Err e => Err e
+    | Panic s => Panic s
+    end))).
+  { intros ci. eapply (good_fix_bind _ 4); [apply fixp_u32 | lia | lia |]. intros rc d _.
+    pose proof (crecs_good (S (length d)) rc d ltac:(lia)) as Hp.
+    destruct (p_crecs (S (length d)) rc d) as [[recs r]|e|s]; auto. lia. }
+  destruct ex.
+  - specialize (K2 eq_refl).
+    assert (F : fixp 8 (pbind p_u32 (fun c => pbind p_u32 (fun i => pret (c / 1073741824, i mod 1073741824))))).
+    { eapply (fixp_bind 4 4); [apply fixp_u32 | | reflexivity]. intros c.
+      eapply (fixp_bind 4 0); [apply fixp_u32 | intros; apply fixp_ret | reflexivity]. }
+    eapply (good_fix_bind _ 8); [exact F | lia | lia |]. intros ci.
+    eapply good_weaken; [apply L | lia | lia].
+  - assert (F : fixp 4 (pbind p_u32 (fun v => pret (src_compact v)))).
+    { eapply (fixp_bind 4 0); [apply fixp_u32 | intros; apply fixp_ret | reflexivity]. }
+    eapply (good_fix_bind _ 4); [exact F | lia | lia |]. intros ci.
+    eapply good_weaken; [apply L | lia | lia].
+Qed.
+
+(* ------------------------------------------------------------------ the datagram *)
+Definition fine (o : outcome unit) : Prop := match o with Panic _ => False | Err e => e <> 99 | Ok _ => True end.
+
+Lemma samples_fine : forall fuel cnt fs cs d, (length d < fuel)%nat ->
+  fine (snd (fst (sf_samples fuel cnt fs cs d))).
+Proof.
+  induction fuel as [|f IH]; intros cnt fs cs d Hf; [lia|].
+  cbn [sf_samples]. destruct (cnt <=? 0); [exact I|].
+  destruct (sf_short 4 d) eqn:E; [cbn; lia|]. apply short_false in E.
+  destruct (p_u32_ok d E) as [tag Ht]. rewrite Ht. cbv zeta.
+  destruct ((tag mod 4096 =? 1) || (tag mod 4096 =? 3)).
+  - pose proof (flow_sample_good (tag mod 4096 =? 3) d E) as Hp.
+    destruct (p_flow_sample (tag mod 4096 =? 3) d) as [[x r]|e|s]; cbn [fst snd fine]; auto.
+    apply IH. lia.
+  - destruct ((tag mod 4096 =? 2) || (tag mod 4096 =? 4)); [|cbn; lia].
+    pose proof (counter_sample_good (tag mod 4096 =? 4) d ltac:(lia)) as Hp.
+    destruct (p_counter_sample (tag mod 4096 =? 4) d) as [[x r]|e|s]; cbn [fst snd fine]; auto.
+    apply IH. lia.
+Qed.
+
+Lemma sf_decode_fine reset old data : fine (snd (fst (sf_decode_gen reset old data))).
+Proof.
+  unfold sf_decode_gen. cbv zeta.
+  destruct (sf_short 8 data) eqn:E; [cbn; lia|]. apply short_false in E.
+  destruct (p_u32_ok data ltac:(lia)) as [ver Hv]. rewrite Hv.
+  destruct (p_u32_ok (skipn 4 data)) as [at_ Ha]; [rewrite skipn_length; lia|]. rewrite Ha.
+  rewrite sf_skipn_skipn. cbn [Nat.add].
+  set (d2 := skipn 8 data).
+  destruct (sf_short (ip_len at_ + 16) d2) eqn:E2; [cbn; lia|]. apply short_false in E2.
+  unfold p_bytes. rewrite sf_split_ok by lia.
+  set (d3 := skipn (ip_len at_) d2). assert (L3 : (16 <= length d3)%nat) by (unfold d3; rewrite skipn_length; lia).
+  destruct (p_u32_ok d3 ltac:(lia)) as [sub Hs]. rewrite Hs.
+  destruct (p_u32_ok (skipn 4 d3)) as [seq Hq]; [rewrite skipn_length; lia|]. rewrite Hq.
+  destruct (p_u32_ok (skipn 4 (skipn 4 d3))) as [up Hu]; [rewrite !skipn_length; lia|]. rewrite Hu.
+  destruct (p_u32_ok (skipn 4 (skipn 4 (skipn 4 d3)))) as [cnt Hc]; [rewrite !skipn_length; lia|]. rewrite Hc.
+  destruct (cnt <? 1); [cbn; lia|].
+  set (d7 := skipn 4 (skipn 4 (skipn 4 (skipn 4 d3)))).
+  pose proof (samples_fine (S (length d7)) cnt
+    (sf_fs (if reset then mkSf (sf_ver old) (sf_agent old) (sf_sub old) (sf_seq old) (sf_up old) (sf_cnt old) [] [] else old))
+    (sf_cs (if reset then mkSf (sf_ver old) (sf_agent old) (sf_sub old) (sf_seq old) (sf_up old) (sf_cnt old) [] [] else old))
+    d7 ltac:(lia)) as Hp.
+  destruct (sf_samples (S (length d7)) cnt _ _ d7) as [[[fs cs] o] tr]. exact Hp.
+Qed.
+
+Lemma sf_decode_no_panic old data : is_panic (snd (fst (sf_decode_into old data))) = false.
+Proof.
+  pose proof (sf_decode_fine true old data) as H. unfold sf_decode_into.
+  destruct (snd (fst (sf_decode_gen true old data))); cbn in *; [reflexivity | reflexivity | contradiction].
+Qed.
+Lemma sf_decode_fuel old data : snd (fst (sf_decode_into old data)) <> Err 99.
+Proof.
+  pose proof (sf_decode_fine true old data) as H. unfold sf_decode_into.
+  destruct (snd (fst (sf_decode_gen true old data))); cbn in *; try discriminate. intros X. inversion X. lia.
+Qed.
+Lemma sf_decode_orig_no_panic old data : is_panic (snd (fst (sf_decode_into_orig old data))) = false.
+Proof.
+  pose proof (sf_decode_fine false old data) as H. unfold sf_decode_into_orig.
+  destruct (snd (fst (sf_decode_gen false old data))); cbn in *; [reflexivity | reflexivity | contradiction].
+Qed.
+
+(* reused = fresh: the outcome and the truncated flag never depend on the receiver; the sample lists
+   never depend on it; after a successful decode nothing does *)
+Lemma sf_decode_fresh old data :
+  let r1 := sf_decode_into old data in
+  let r2 := sf_decode_into sf_fresh data in
+  snd (fst r1) = snd (fst r2) /\ snd r1 = snd r2 /\
+  sf_fs (fst (fst r1)) = sf_fs (fst (fst r2)) /\ sf_cs (fst (fst r1)) = sf_cs (fst (fst r2)) /\
+  (snd (fst r1) = Ok tt -> fst (fst r1) = fst (fst r2)).
+Proof.
+  cbv zeta. unfold sf_decode_into, sf_decode_gen. cbv zeta. cbn [sf_fs sf_cs sf_fresh].
+  destruct (sf_short 8 data); [cbn; repeat split; discriminate|].
+  destruct (p_u32 data) as [[ver d1]|e|s]; [|cbn; repeat split; discriminate ..].
+  destruct (p_u32 d1) as [[at_ d2]|e|s]; [|cbn; repeat split; discriminate ..].
+  destruct (sf_short (ip_len at_ + 16) d2); [cbn; repeat split; discriminate|].
+  destruct (p_bytes (ip_len at_) d2) as [[agent d3]|e|s]; [|cbn; repeat split; discriminate ..].
+  destruct (p_u32 d3) as [[sub d4]|e|s]; [|cbn; repeat split; discriminate ..].
+  destruct (p_u32 d4) as [[seq d5]|e|s]; [|cbn; repeat split; discriminate ..].
+  destruct (p_u32 d5) as [[up d6]|e|s]; [|cbn; repeat split; discriminate ..].
+  destruct (p_u32 d6) as [[cnt d7]|e|s]; [|cbn; repeat split; discriminate ..].
+  destruct (cnt <? 1); [cbn; repeat split; discriminate|].
+  destruct (sf_samples (S (length d7)) cnt [] [] d7) as [[[fs cs] o] tr]. cbn. repeat split.
 Qed.
